@@ -145,6 +145,8 @@ def is_pure(e, facts=None, depth=0):
             return False
         return is_pure(e.get("lhs"), facts, depth + 1) and is_pure(e.get("rhs"), facts, depth + 1)
     if k == "Un":
+        if e.get("op") == "&" and isinstance(unwrap(e.get("e")), dict) and unwrap(e["e"]).get("k") == "Ref" and unwrap(e["e"]).get("d") in ("Field", "func"):
+            return True             # `&Class::member`: a constant
         if e.get("op") in ("pre++", "pre--", "post++", "post--", "&"):
             return False
         return is_pure(e.get("e"), facts, depth + 1)
@@ -1137,6 +1139,20 @@ class Inliner:
                 return copy.deepcopy(amap[n["id"]])
             return {key: (sub(v) if isinstance(v, (dict, list)) else v) for key, v in n.items()}
         res = sub(expr)
+        # `obj.*member` with the pointer to member now a literal `&Class::field` is the member access
+        for n in walk(res):
+            if n.get("k") == "Bin" and n.get("op") in (".*", "->*"):
+                r_ = unwrap(n.get("rhs"))
+                while isinstance(r_, dict) and r_.get("k") == "Cast":
+                    r_ = unwrap(r_.get("e"))
+                if isinstance(r_, dict) and r_.get("k") == "Un" and r_.get("op") == "&":
+                    fld = unwrap(r_.get("e"))
+                    if isinstance(fld, dict) and fld.get("k") == "Ref" and fld.get("d") == "Field" and fld.get("qn"):
+                        base, arrow, t_, l_ = n.get("lhs"), n["op"] == "->*", n.get("t"), n.get("l")
+                        n.clear()
+                        n.update({"k": "Member", "field": True, "n": fld["n"], "cls": fld["qn"].rsplit("::", 1)[0], "base": base, "t": t_, "l": l_})
+                        if arrow:
+                            n["arrow"] = True
         self.note(cid, is_lam, True)
         return res
 
